@@ -137,6 +137,8 @@ def run_container(ctx, prop: str, cls: str) -> Result:
         RC.check_record_deletion_joint(ctx, res, cls)
     with res.guard("RC.check_id_monotone(ctx, res, cls)"):
         RC.check_id_monotone(ctx, res, cls)
+    with res.guard("RC.check_shallow_checkpoint(ctx, res, cls)"):
+        RC.check_shallow_checkpoint(ctx, res, cls)
     with res.guard("RC.check_keyed_memo_invalidation(ctx, res, cls)"):
         RC.check_keyed_memo_invalidation(ctx, res, cls)
     with res.guard("RC.check_record_counters(ctx, res, cls)"):
